@@ -11,5 +11,9 @@ func checkC03(c *Ctx) {
 	c.Extra["adjacency_edit_sites"] = n
 	c.Floor("PAIR", 40)
 	c.checkEnumSiblings("SIBLING")
-	c.Floor("SIBLING", 5)
+	c.enumDescentGuards("SIBLING")
+	c.Floor("SIBLING", 8)
+	c.Decides("ORIENT: a node made the root in the block that attaches it as the child end of a new branch (ConnectNodes(parent, child); SetRoot(child)) is followed by a re-orientation")
+	c.orientRule("ORIENT")
+	c.Floor("ORIENT", 4)
 }
